@@ -295,9 +295,14 @@ def fit_scipy(
             except LargeNumberError:
                 return except_result(fcn, x0.shape[0])
         elif jac is not True:
+
+            def fcn_no_grad(x):
+                fcn.vm.set_trans_var(x)  # x is the fit coordinate, like in f_g
+                return float(fcn({}))
+
             try:
                 s = minimize(
-                    lambda x: float(fcn(x)),
+                    fcn_no_grad,
                     x0,
                     method=method,
                     jac=jac,
